@@ -178,6 +178,25 @@ Theorem affected_invalid_iff :
     affected_level_tiles g b l = InvalidBBOX <-> (cx1 < cx0 \/ if ul g then cy0 < cy1 else cy1 < cy0).
 Proof. exact Grid_proofs.affected_invalid_iff. Qed.
 
+(* ---------------------------------------------------------------- meta tiles reported for a rectangle *)
+
+(* MetaGrid.get_affected_level_tiles (seeding / cleanup walker), meta size msx x msy (clipped to the grid size of the
+   level).  Cover, independently per axis: the effective range of an axis is the 1/10 pixel inset of the rectangle, or
+   its centre when the rectangle is thinner than 2/10 pixel in that axis (in_thin_range).  A point within the effective
+   ranges of both axes has the meta tile containing its tile in the list: the call succeeds and the anchor
+   (tx / mx * mx, ty / my * my) of that meta tile is a listed entry (limit_tile of the anchor). *)
+Theorem meta_affected_cover :
+  forall g msx msy b l px py,
+    wf g -> valid_level g l = true -> 1 <= msx -> 1 <= msy ->
+    let '(bx0, by0, bx1, by1) := b in
+    in_thin_range bx0 bx1 (inset g l) px -> in_thin_range by0 by1 (inset g l) py ->
+    exists ab n m ts, meta_affected_level_tiles g msx msy b l = Affected ab n m ts /\
+      let '(tx, ty) := tile g px py l in
+      let '(mx, my) := meta_size_at g msx msy l in
+      exists ax ay, ax <= tx < ax + mx /\ ay <= ty < ay + my /\ ax = tx / mx * mx /\ ay = ty / my * my /\
+                    In (limit_tile g ax ay l) ts.
+Proof. exact Grid_proofs.meta_affected_cover. Qed.
+
 (* ---------------------------------------------------------------- level choice *)
 
 (* For a requested resolution res = rn/rd and stretch factor sf_n/sf_d >= 1 on a strictly decreasing resolution
@@ -232,6 +251,18 @@ Theorem closest_level_thr_general :
     forall t, th = Some t -> thr_hit (Some t) prev (res_at g k) = true ->
     closest_level_thr g ths rn rd = if t * rd <? rn then k - 1 else k.
 Proof. exact Grid_proofs.closest_level_thr_general. Qed.
+
+(* Closed form when every threshold lies in its own gap between two levels (gaps_ok: the descending threshold list meets
+   the gaps in level order; thr_gap g k t := 1 <= k < levels /\ r_k <= t < r_(k-1)): a threshold t between levels k-1 and
+   k decides every request between these two levels: r_k <= res < r_(k-1) gets level k-1 when res > t and level k
+   otherwise, whatever the stretch factor and the other thresholds. *)
+Theorem closest_level_thr_one_per_gap :
+  forall g ths t k rn rd,
+    decreasing_res g -> (forall j, 0 <= j < levels g -> 0 < res_at g j) -> 0 < rd ->
+    gaps_ok g 1 (rev ths) -> In t ths -> thr_gap g k t ->
+    res_at g k * rd <= rn < res_at g (k - 1) * rd ->
+    closest_level_thr g ths rn rd = if t * rd <? rn then k - 1 else k.
+Proof. exact Grid_proofs.closest_level_thr_one_per_gap. Qed.
 
 (* get_affected_bbox_and_level (request in the grid SRS): a level is returned exactly when the rectangle intersects
    the grid bbox and the requested resolution rn/rd = min(w/sx, h/sy) does not exceed res_0 * max_shrink_factor
